@@ -269,6 +269,16 @@ func (e *seqEngine) eval(v ssa.Value, p *pathCtx) seqVal {
 		if pr == nil {
 			return seqVal{Unknown: "phi outside the path"}
 		}
+		// a loop-carried value: the acyclic path enters the loop header from outside and would take the initial
+		// value for the whole loop. What the iterations make of it (conditional appends, filtering) is not a
+		// sequence this engine can state, so it is unknown — unless no iteration changes it
+		for i, pb := range x.Block().Preds {
+			if pb != pr && x.Block().Dominates(pb) && x.Edges[i] != ssa.Value(x) {
+				if !onlyPassesThrough(x.Edges[i], x) {
+					return seqVal{Unknown: "the list is built up over the iterations of a loop (" + x.Comment + ")"}
+				}
+			}
+		}
 		for i, pb := range x.Block().Preds {
 			if pb == pr {
 				return e.eval(x.Edges[i], p)
@@ -1103,4 +1113,27 @@ func (w *World) allFuncsOf(pkg *ssa.Package) []*ssa.Function {
 		}
 	}
 	return out
+}
+
+// onlyPassesThrough: v is the loop phi itself merged through inner phis (the loop body never assigns the variable).
+func onlyPassesThrough(v ssa.Value, loopPhi *ssa.Phi) bool {
+	seen := map[ssa.Value]bool{}
+	var walk func(v ssa.Value) bool
+	walk = func(v ssa.Value) bool {
+		if v == ssa.Value(loopPhi) || seen[v] {
+			return true
+		}
+		seen[v] = true
+		ph, ok := v.(*ssa.Phi)
+		if !ok {
+			return false
+		}
+		for _, e := range ph.Edges {
+			if !walk(e) {
+				return false
+			}
+		}
+		return true
+	}
+	return walk(v)
 }
